@@ -204,6 +204,12 @@ func (a *AreaMembers) MergeFrom(other AreaMembers) {
 		a.ids = a.ids[0:len(other.ids)]
 	}
 	for i, ids := range other.ids {
+		if ids == nil {
+			// Polygon i isn't built from paths: an empty (rather than nil)
+			// list would hide its explicit polygon.
+			a.ids[i] = nil
+			continue
+		}
 		j := copy(a.ids[i], ids)
 		if j < len(ids) {
 			a.ids[i] = append(a.ids[i], ids[j:]...)
